@@ -65,6 +65,67 @@ def run_cmd(cmd, timeout, cwd=None, log=None):
     return rc, out or '', dt
 
 
+def run_portfolio(cmds, timeout, log=None):
+    """Start all commands; the first one that ends with a definitive cbmc answer (rc 0 or 10) wins, the rest are killed.
+    Returns (rc, out, seconds, index_of_winner)."""
+    t0 = time.time()
+    procs = []
+    for c in cmds:
+        f = None
+        try:
+            import tempfile
+            f = tempfile.TemporaryFile(mode='w+')
+            p = subprocess.Popen(c, stdout=f, stderr=subprocess.STDOUT, text=True, preexec_fn=_limits)
+            procs.append([p, f, c, None])
+        except OSError as e:
+            procs.append([None, None, c, 'oserror'])
+    winner = None
+    last = ('timeout', '', 0)
+    while True:
+        alive = 0
+        for k, pr in enumerate(procs):
+            p = pr[0]
+            if p is None or pr[3] is not None:
+                continue
+            rc = p.poll()
+            if rc is None:
+                alive += 1
+                continue
+            pr[3] = rc
+            pr[1].seek(0)
+            out = pr[1].read()
+            last = (rc, out, k)
+            if rc in (0, 10):
+                winner = k
+                break
+        if winner is not None or alive == 0 or time.time() - t0 > timeout:
+            break
+        time.sleep(0.2)
+    for pr in procs:
+        p = pr[0]
+        if p is not None and p.poll() is None:
+            try:
+                os.killpg(p.pid, 9)
+            except OSError:
+                pass
+            p.wait()
+    dt = time.time() - t0
+    if winner is None:
+        if time.time() - t0 > timeout and last[0] not in (0, 10):
+            rc, out, k = 'timeout', last[1], last[2]
+        else:
+            rc, out, k = last
+    else:
+        rc, out, k = last
+    if log:
+        with open(log, 'a') as f:
+            f.write('$ [portfolio winner %s of %d] %s\n%s\n[rc=%s, %.1fs]\n' % (k, len(cmds), ' '.join(cmds[k]) if cmds else '', out or '', rc, dt))
+    for pr in procs:
+        if pr[1]:
+            pr[1].close()
+    return rc, out or '', dt, k
+
+
 # --------------------------------------------------------------------------------------------------
 
 RESULT_LINE = re.compile(r'^\[(?P<id>[^\]]+)\]\s+(?:line (?P<line>\d+)\s+)?(?P<desc>.*):\s+(?P<st>SUCCESS|FAILURE|UNKNOWN|ERROR)\s*$')
@@ -213,7 +274,15 @@ def do_check(unit, check, cfile, sdir, known, verbose=False):
         else:
             return 'unknown check kind ' + kind
         r.cmd = ' '.join(cmd)
-        rc, out, dt = run_cmd(cmd, timeout, log=log)
+        if kind in ('dfcc', 'cbmc') and 'backend' not in check and os.environ.get('GV_PORTFOLIO', '1') == '1':
+            # solver portfolio: MiniSat (built in) and CaDiCaL race; measured: each wins by >10x on some units
+            cmds = [cmd, cmd + ['--sat-solver', 'cadical']]
+            rc, out, dt, win = run_portfolio(cmds, timeout, log=log)
+            cmd = cmds[win]
+            r.cmd = ' '.join(cmd)
+            r.backend = 'cbmc 6.11.0 / portfolio {minisat2, cadical}: answered by ' + ('cadical' if win == 1 else 'minisat2')
+        else:
+            rc, out, dt = run_cmd(cmd, timeout, log=log)
         r.solver_s += dt
         if rc == 'timeout':
             return 'solver timeout after %ds' % timeout
@@ -420,9 +489,15 @@ def main(argv):
     fires_all = {}
     trusted = []
     assumptions = []
+    enabled = set()
+    ep = os.path.join(VERIF, 'units', 'ENABLED')
+    if os.path.exists(ep):
+        enabled = set(l.strip() for l in open(ep) if l.strip() and not l.startswith('#'))
     for u in units:
         if only_unit and u['name'] != only_unit:
             continue
+        if not only_unit and u['name'] not in enabled:
+            continue          # units under construction take part only when named with --unit
         checks = []
         for c in u.get('checks', []):
             cprops = c.get('properties', u.get('properties', []))
@@ -458,7 +533,7 @@ def main(argv):
         import random
         random.Random(seed).shuffle(jobs)
     results = []
-    with cf.ThreadPoolExecutor(max_workers=int(os.environ.get('GV_JOBS', '14'))) as ex:
+    with cf.ThreadPoolExecutor(max_workers=int(os.environ.get('GV_JOBS', '8'))) as ex:
         futs = {}
         for (u, c, cfile) in jobs:
             fn = do_z3 if c.get('kind') == 'z3' else do_check
@@ -607,7 +682,11 @@ def selftest():
     ok = True
     sdir = os.path.join(VERIF, 'scratch', 'selftest-%d' % os.getpid())
     os.makedirs(sdir, exist_ok=True)
+    ep = os.path.join(VERIF, 'units', 'ENABLED')
+    enabled = set(l.strip() for l in open(ep) if l.strip() and not l.startswith('#')) if os.path.exists(ep) else set()
     for u in load_units():
+        if u['name'] not in enabled:
+            continue
         try:
             if os.path.exists(os.path.join(u['dir'], u.get('spec', 'spec.c'))):
                 info, fires, _ = extract.build_unit(REPO, u['dir'], u, os.path.join(sdir, u['name'] + '.c'))
